@@ -893,6 +893,11 @@ class Gen:
                 self.ops.append({'op': 'ln'})
         for o in self.ops[start:]:
             o['close'] = mark
+        if kind == 'init':
+            # back to a channel with few significant bits (a later block brings its own many-bit factor)
+            op = self.init_op('init', self.K, list(self.nr), list(self.nt), list(self.ntE))
+            op.update(fM=None, scr=False, nrf='array', ntf='array', ntef='array')
+            self.ops.append(op)
         self.plain_state()
 
     # ---- R16: one array object in two roles
@@ -942,7 +947,7 @@ class Gen:
         self.op_init()
         while len(self.ops) < length:
             u = rng.uniform()
-            if self.mode == 'plain' and rng.chance(0.03):
+            if self.mode == 'plain' and rng.chance(0.02):
                 self.op_close()
             elif self.roles and rng.chance(0.05):
                 self.op_roles()
@@ -2732,7 +2737,7 @@ def check(ctx):
                 'token by token with the Lean model, the same generator with real floats for the oracle-only stream; '
                 'evaluations = operations executed; non-trivial = a read of a view that was read before the latest '
                 'mutation (read-mutate-read), a transmission, or a rejected call; R15 blocks (setter(v1), all '
-                'observables, setter(v2 close to v1), all observables; fixed scenario set + 3% of the plain-mode '
+                'observables, setter(v2 close to v1), all observables; fixed scenario set + 2% of the plain-mode '
                 'steps); R16: one plain-mode slot in five and the r16 scenarios run through the caller\'s refilled '
                 'preallocated arrays (BufPool), layouts in which one array serves two parameters')
     proved = core.prove(ctx, MODULE, generated=['C08Effects'], drivers=[DRIVER], scratch=ctx.scratch)
